@@ -16,8 +16,10 @@ The module describes main system functions for working with objects.
 """
 
 import itertools
+import types
 
 from yaql.language import contexts
+from yaql.language import expressions
 from yaql.language import specs
 from yaql.language import utils
 from yaql.language import yaqltypes
@@ -358,8 +360,22 @@ def call_func(context, engine, name, args, kwargs, receiver=utils.NO_VALUE):
         yaql> call(let, [1, 2], {a => 3, b => 4}) -> $1 + $a + $2 + $b
         10
     """
+    def as_data(value):
+        # what an expression hands over is data, never code: a host callable
+        # found among the arguments must reach a lambda parameter as a value
+        # (as a literal would) instead of being run; only lambdas made by
+        # yaql itself (plain functions that carry __unwrapped__) are code
+        if isinstance(value, types.FunctionType) and hasattr(
+                value, '__unwrapped__'):
+            return value
+        if callable(value):
+            return expressions.Constant(value)
+        return value
+
+    kwargs = utils.filter_parameters_dict(kwargs)
     return context(name, engine, receiver)(
-        *args, **utils.filter_parameters_dict(kwargs))
+        *[as_data(t) for t in args],
+        **dict((key, as_data(value)) for key, value in kwargs.items()))
 
 
 def register(context, delegates=False):
